@@ -14,7 +14,11 @@ Set Implicit Arguments.
 
 (* ---- values, events, world ---- *)
 Inductive value := VUndef | VStr (s : string) | VObj (n : nat).
-Inductive event := EvAdd (a b : value) | EvCall (f : value) (args : list value).
+Inductive event :=
+| EvAdd (a b : value)
+| EvCall (f : value) (args : list value)
+| EvGet (o : value) (k : string)                         (* property read o.k *)
+| EvCallT (f this : value) (args : list value).          (* call of f with an explicit receiver *)
 Definition hist := list event.
 Inductive resp := RRet (v : value) | RThr (v : value).
 
@@ -29,6 +33,10 @@ Inductive expr :=
 | Add (l r : expr)
 | CallE (f : expr) (a : expr)                    (* unary call: enough for the spike *)
 | Par (e : expr)                                 (* parentheses written by the user: not an identifier, not a [+] *)
+| MCall1 (o : expr) (m : string) (a : expr)      (* method call o.m(a) *)
+| Get (o : expr) (m : string)                    (* o.m, as the rewriter reads the function to call *)
+| CallT1 (f this a : expr)                       (* f.call(this, a) *)
+| Hoist3 (n1 : nat) (e1 : expr) (n2 : nat) (e2 : expr) (n3 : nat) (e3 : expr) (body : expr)
 | Hoist2 (n1 : nat) (e1 : expr) (n2 : nat) (e2 : expr) (body : expr)   (* (t1 = e1, t2 = e2, body) *)
 | Hoist1 (n1 : nat) (e1 : expr) (body : expr)
 | Hook (first : expr) (args : list expr).
@@ -73,6 +81,20 @@ Fixpoint eval (e : expr) (s : st) : out * st :=
   | Add l r => bind (eval l s) (fun a s1 => bind (eval r s1) (fun b s2 => do_add a b s2))
   | CallE f a => bind (eval f s) (fun vf s1 => bind (eval a s1) (fun va s2 => fire (EvCall vf [va]) s2))
   | Par e => eval e s
+  | MCall1 o m a =>
+      bind (eval o s) (fun vo s1 => bind (fire (EvGet vo m) s1) (fun vf s2 =>
+      bind (eval a s2) (fun va s3 => fire (EvCallT vf vo [va]) s3)))
+  | Get o m => bind (eval o s) (fun vo s1 => fire (EvGet vo m) s1)
+  | CallT1 f this a =>
+      bind (eval f s) (fun vf s1 => bind (eval this s1) (fun vt s2 =>
+      bind (eval a s2) (fun va s3 => fire (EvCallT vf vt [va]) s3)))
+  | Hoist3 n1 e1 n2 e2 n3 e3 body =>
+      bind (eval e1 s) (fun v1 s1 =>
+      let s1' := (fst s1, upd (snd s1) n1 v1) in
+      bind (eval e2 s1') (fun v2 s2 =>
+      let s2' := (fst s2, upd (snd s2) n2 v2) in
+      bind (eval e3 s2') (fun v3 s3 =>
+      eval body (fst s3, upd (snd s3) n3 v3))))
   | Hoist2 n1 e1 n2 e2 body =>
       bind (eval e1 s) (fun v1 s1 =>
       let s1' := (fst s1, upd (snd s1) n1 v1) in
@@ -125,7 +147,8 @@ Definition wrap (binds : list (nat * expr)) (body : expr) : expr :=
   match binds with
   | [] => body
   | [(n1, e1)] => Hoist1 n1 e1 body
-  | (n1, e1) :: (n2, e2) :: _ => Hoist2 n1 e1 n2 e2 body
+  | [(n1, e1); (n2, e2)] => Hoist2 n1 e1 n2 e2 body
+  | (n1, e1) :: (n2, e2) :: (n3, e3) :: _ => Hoist3 n1 e1 n2 e2 n3 e3 body
   end.
 
 Definition rw_add (l' r' : expr) (c2 : nat) : expr * nat :=
@@ -137,6 +160,25 @@ Definition rw_add (l' r' : expr) (c2 : nat) : expr * nat :=
   if forallb is_lit args then (Add l' r', c2)          (* must_replace is false: untouched *)
   else (wrap (bl ++ br) (Hook (Add l2 r2) args), c4).
 
+(** Which method names are instrumented, and which of them also on a literal receiver
+    (the configuration; [csi_get] and [allows_literal_callers] of the model). *)
+Variable instr : string -> bool.
+Variable lit_ok : string -> bool.
+
+(** [replace_with_member]: the receiver is captured (a literal stays), the function is read from it into a
+    temporary, the argument is captured unless it is a literal or a sum left in place (which is not passed
+    to the hook), and the call becomes [f.call(receiver, argument)]. *)
+Definition arg_act (a' : expr) : act :=
+  match a' with Lit _ => Keep | Add _ _ => Stay | _ => Hoist end.
+
+Definition rw_mcall (o' : expr) (m : string) (a' : expr) (c2 : nat) : expr * nat :=
+  let '(r, br, c3) := if is_lit o' then (o', [], c2) else (Tmp c2, [(c2, o')], S c2) in
+  let f := Tmp c3 in
+  let c4 := S c3 in
+  let '(a2, ba, c5) := match arg_act a' with Hoist => (Tmp c4, [(c4, a')], S c4) | _ => (a', [], c4) end in
+  (wrap (br ++ [(c3, Get r m)] ++ ba)
+        (Hook (CallT1 f r a2) ([f; r] ++ match arg_act a' with Stay => [] | _ => [a2] end)), c5).
+
 Fixpoint rw (e : expr) (c : nat) : expr * nat :=
   match e with
   | Add l r =>
@@ -145,6 +187,10 @@ Fixpoint rw (e : expr) (c : nat) : expr * nat :=
       rw_add l' r' c2
   | CallE f a => let '(f', c1) := rw f c in let '(a', c2) := rw a c1 in (CallE f' a', c2)
   | Par x => let '(x', c1) := rw x c in (Par x', c1)
+  | MCall1 o m a =>
+      let '(o', c1) := rw o c in
+      let '(a', c2) := rw a c1 in
+      if instr m && (negb (is_lit o') || lit_ok m) then rw_mcall o' m a' c2 else (MCall1 o' m a', c2)
   | _ => (e, c)
   end.
 
@@ -156,6 +202,7 @@ Fixpoint src (e : expr) : Prop :=
   | Add l r => src l /\ src r
   | CallE f a => src f /\ src a
   | Par x => src x
+  | MCall1 o _ a => src o /\ src a
   | _ => False
   end.
 
@@ -167,6 +214,10 @@ Fixpoint temps_in (lo hi : nat) (e : expr) : Prop :=
   | Add l r => temps_in lo hi l /\ temps_in lo hi r
   | CallE f a => temps_in lo hi f /\ temps_in lo hi a
   | Par x => temps_in lo hi x
+  | MCall1 o _ a => temps_in lo hi o /\ temps_in lo hi a
+  | Get o _ => temps_in lo hi o
+  | CallT1 f t a => temps_in lo hi f /\ temps_in lo hi t /\ temps_in lo hi a
+  | Hoist3 n1 e1 n2 e2 n3 e3 b => lo <= n1 < hi /\ lo <= n2 < hi /\ lo <= n3 < hi /\ temps_in lo hi e1 /\ temps_in lo hi e2 /\ temps_in lo hi e3 /\ temps_in lo hi b
   | Hoist2 n1 e1 n2 e2 b => lo <= n1 < hi /\ lo <= n2 < hi /\ temps_in lo hi e1 /\ temps_in lo hi e2 /\ temps_in lo hi b
   | Hoist1 n1 e1 b => lo <= n1 < hi /\ temps_in lo hi e1 /\ temps_in lo hi b
   | Hook f args => temps_in lo hi f /\ (fix go (l : list expr) : Prop := match l with [] => True | a :: r => temps_in lo hi a /\ go r end) args
